@@ -19,6 +19,8 @@ for arg in sys.argv[1:]:
     prop, n = sid.split("/")
     import os
     src = Path(os.environ.get("SEED_BASE", "/tmp/seed")) / prop / "out" / n
+    if os.environ.get("SEED_FLAT"):
+        src = Path(os.environ["SEED_BASE"]) / prop / n
     dst = V / "seeded" / f"{prop}-{int(n) + int(os.environ.get('NOFF', '0'))}"
     dst.mkdir(parents=True, exist_ok=True)
     for f in ("patch.diff", "demo.py", "meta.json"):
@@ -54,6 +56,8 @@ for arg in sys.argv[1:]:
         res[p] = {"exit": c.returncode, "violations": len(vio), "no_failing_input": sum("no-failing-input-found" in l for l in vio), "first": rep, "wall_s": round(time.time() - t)}
     sh(f"git -C {S} checkout -- . ; git -C {S} reset -q")
     assert sh(f"git -C {S} status --short").stdout.strip() == "", "scratch repo not restored"
+    if "verification" in meta and "first_pass" not in meta and meta["verification"].get("checks"):
+        meta["first_pass"] = meta["verification"]          # what the checks reported before they were strengthened
     meta["verification"] = {"applied_with": f"git -C {S} {how} (scratch worktree of the repaired tree, checks run with VERIF_REPO pointing at it), undone with git checkout",
                             "demo_exit_on_patched_repo": d.returncode, "checks": res,
                             "caught_by": [p for p, v in res.items() if v["violations"] > 0]}
